@@ -2,6 +2,7 @@ SPECIFICATION MCSpec
 CONSTANT Procs = {"p1", "p2", "p3"}
 CONSTANT FixF6 = TRUE
 CONSTANT FixF21 = TRUE
+CONSTRAINT ThreeBound
 INVARIANT TypeOK
 INVARIANT OneBodyAtATime
 INVARIANT NoBodyAfterDone
